@@ -5,8 +5,10 @@ import (
 	"net"
 	"os"
 	"path/filepath"
+	"runtime"
 	"sort"
 	"strings"
+	"sync"
 	"time"
 
 	"github.com/hugelgupf/p9/fsimpl/composefs"
@@ -21,7 +23,7 @@ import (
 func init() {
 	ev.Register(&ev.Spec{
 		ID: "C19", Level: "exploration",
-		Rule:    "paged listings (next Offset = Offset of the last entry received) of real localfs temp directories, staticfs and composefs (flat, with localfs/staticfs mounts, nested WithDir), called on the File directly (entry counts) and through client+server (byte counts, several msize values; the listing fid has one of nine histories behind it: fresh, listed before, restarted after one page, page counts varying, a second fid listing the same directory in alternation, and for localfs the directory or its ancestor renamed before or in the middle of the listing); the multiset of names is compared with ground truth and every entry's QID/type with Walk+GetAttr. Non-trivial: the listing needed >= 2 pages; distinct by (fs, dir size, name class, count class, route).",
+		Rule:    "paged listings (next Offset = Offset of the last entry received) of real localfs temp directories, staticfs and composefs (flat, with localfs/staticfs mounts, nested WithDir), called on the File directly (entry counts) and through client+server (byte counts, several msize values; the listing fid has one of nine histories behind it: fresh, listed before, restarted after one page, page counts varying, a second fid listing the same directory in alternation, and for localfs the directory or its ancestor renamed before or in the middle of the listing); the multiset of names is compared with ground truth and every entry's QID/type with Walk+GetAttr. Also: a directory below a fresh composefs mount listed for the first time by 4 connections at once (the mount's QID mapper sees every file for the first time). Non-trivial: the listing needed >= 2 pages; distinct by (fs, dir size, name class, count class, route).",
 		Assume:  []string{"directory contents are not modified while listed (the directory itself or an ancestor may be renamed)", "real temp directories under /verif/.scratch"},
 		Shards:  shards(8, 16),
 		Timeout: timeout(5*time.Minute, 40*time.Minute),
@@ -144,6 +146,9 @@ func c19Compose(c *ev.Ctx, n, nl int, nested bool) (*c19fs, error) {
 	return &c19fs{kind: "composefs", names: names, att: fs, clean: clean}, nil
 }
 
+// c19CompareAll makes c19Compare check every entry's QID instead of a sample.
+var c19CompareAll bool
+
 // page lists dir completely via rd, following the Offset protocol.
 func c19Page(rd func(off uint64, count uint32) (p9.Dirents, error), count uint32, max int) (ents []p9.Dirent, pages int, err error) {
 	off := uint64(0)
@@ -207,7 +212,7 @@ func c19Compare(c *ev.Ctx, f *c19fs, route string, count uint32, ents []p9.Diren
 	}
 	// QID / type agreement with Walk + GetAttr (sampled for big directories).
 	step := 1
-	if len(ents) > 64 {
+	if len(ents) > 64 && !c19CompareAll {
 		step = len(ents) / 64
 	}
 	for i := 0; i < len(ents); i += step {
@@ -283,6 +288,7 @@ func runC19(c *ev.Ctx) {
 			}
 		}
 	}
+	c19ConcurrentFirst(c)
 	os.RemoveAll(filepath.Join(c.Dir, "..", fmt.Sprintf("c19-%d-%d", os.Getpid(), c.Shard)))
 }
 
@@ -626,3 +632,124 @@ func scClass(cnt, one, ms uint32) string {
 }
 
 var _ = sort.Strings
+
+// c19ConcurrentFirst: a directory below a composefs mount is listed for the
+// first time by several connections at once (the QID mapper behind a mount is
+// shared by all connections of a server and sees every file for the first
+// time). Every lister's entries must carry the QIDs that Walk and GetAttr
+// report afterwards, each name exactly once.
+func c19ConcurrentFirst(c *ev.Ctx) {
+	rounds := c.Sz(160, 4000)
+	c19CompareAll = true
+	defer func() { c19CompareAll = false }()
+	// the shards share the machine's cores; this workload needs its listers to
+	// run truly in parallel
+	defer runtime.GOMAXPROCS(runtime.GOMAXPROCS(8))
+	var l *c19fs
+	defer func() {
+		if l != nil {
+			l.clean()
+		}
+	}()
+	for round := 0; round < rounds; round++ {
+		if !c.Mine(round) {
+			continue
+		}
+		if l == nil {
+			var err error
+			if l, err = c19Local(c, 300, 8); err != nil {
+				c.Inconclusive("C19 concurrent fixture: " + err.Error())
+				return
+			}
+		}
+		c.Begin(fmt.Sprintf("C19 concurrent first listing round %d", round))
+		// fresh attacher objects every round: a fresh mapper that has seen nothing
+		cfs, err := composefs.New(composefs.WithMount("m", l.att), composefs.WithFile("sibling", staticfs.ReadOnlyFile("s")))
+		if err != nil {
+			c.Inconclusive("C19 concurrent composefs: " + err.Error())
+			return
+		}
+		f := &c19fs{kind: "composefs-concurrent", names: l.names, att: cfs, path: append([]string{"m"}, l.path...)}
+		srv := p9.NewServer(cfs)
+		const K = 4
+		type res struct {
+			ents  []p9.Dirent
+			pages int
+			err   error
+			cl    *p9.Client
+			cc    net.Conn
+		}
+		rs := make([]res, K)
+		okSetup := true
+		for k := 0; k < K; k++ {
+			cc, sc := net.Pipe()
+			go srv.Handle(sc, sc)
+			rs[k].cc = cc
+			if !ev.Watch(60*time.Second, func() { rs[k].cl, rs[k].err = p9.NewClient(cc, p9.WithMessageSize(4096)) }) || rs[k].err != nil {
+				okSetup = false
+			}
+		}
+		if !okSetup {
+			c.Inconclusive("C19 concurrent: NewClient")
+			for k := range rs {
+				rs[k].cc.Close()
+			}
+			continue
+		}
+		start := make(chan struct{})
+		done := make(chan struct{})
+		var wg sync.WaitGroup
+		for k := 0; k < K; k++ {
+			wg.Add(1)
+			go func(k int) {
+				defer wg.Done()
+				root, e := rs[k].cl.Attach("")
+				if e != nil {
+					rs[k].err = e
+					return
+				}
+				_, dir, e := root.Walk(f.path)
+				if e != nil {
+					rs[k].err = e
+					return
+				}
+				if _, _, e := dir.Open(p9.ReadOnly); e != nil {
+					rs[k].err = e
+					return
+				}
+				<-start
+				rs[k].ents, rs[k].pages, rs[k].err = c19Page(dir.Readdir, 700, 3*len(f.names)+10)
+				dir.Close()
+			}(k)
+		}
+		close(start)
+		go func() { wg.Wait(); close(done) }()
+		if out, dump := quiesce.Await(done, 2*wd); out != quiesce.CondMet {
+			hang(c, out, dump, "C19:composefs-concurrent:listing-hangs", nil)
+			return
+		}
+		cmp := make(chan struct{})
+		go func() {
+			defer close(cmp)
+			root, e := rs[0].cl.Attach("")
+			if e != nil {
+				return
+			}
+			_, wdir, e := root.Walk(f.path)
+			if e != nil {
+				return
+			}
+			for k := 0; k < K; k++ {
+				c19Compare(c, f, fmt.Sprintf("served:lister-%d-of-%d", k+1, K), 700, rs[k].ents, rs[k].pages, rs[k].err, wdir, "concurrent-first")
+			}
+			wdir.Close()
+		}()
+		if out, dump := quiesce.Await(cmp, 2*wd); out != quiesce.CondMet {
+			hang(c, out, dump, "C19:composefs-concurrent:walk-hangs", nil)
+			return
+		}
+		for k := range rs {
+			rs[k].cc.Close()
+		}
+	}
+}
